@@ -1,7 +1,7 @@
 (* Runner for property C10: wire arguments -> model (Env/Lifecycle.v) -> wire result.
      c10 <fx> <base> ( op ... )   ->  ( ( x<outcome> nsigs nreal ) ... )
-   <fx> bit 0 = fix9, bit 1 = fix10, bit 2 = fix11 (0 = the repository as shipped, 7 = with all
-   proposed repairs).  Operation codes as in harness/c10.go.  The hash is instantiated with an
+   <fx> bit 0 = fix9, bit 1 = fix10 (0 = the repository as shipped, 3 = with the proposed
+   repairs).  Operation codes as in harness/c10.go.  The hash is instantiated with an
    injective encoding of the content (sha256 is treated as collision-free by the tie only). *)
 From Coq Require Import ZArith List String Bool.
 From Verif Require Import Base.Wire Env.Header Env.Sig Env.Lifecycle.
@@ -21,7 +21,7 @@ Definition base_doc (b : Z) : option content :=
   else None.
 
 Definition dec_fx (z : Z) : fixes :=
-  mkFx (Z.testbit z 0) (Z.testbit z 1) (Z.testbit z 2).
+  mkFx (Z.testbit z 0) (Z.testbit z 1).
 
 Definition dec_op (v : V) : option op :=
   let '(c, a) := match v with
